@@ -1,11 +1,15 @@
 """Which functions / lemmas / bounded stand-ins decide which property."""
+NET = "acnportal.acnsim.network.charging_network.ChargingNetwork."
 B = "acnportal.acnsim.models.battery."
 E = "acnportal.acnsim.models.ev."
 S = "acnportal.acnsim.models.evse."
 SA = "acnportal.algorithms.sorted_algorithms.SortedSchedulingAlgo."
 SEARCH = [SA + "discrete_max_feasible_rate", SA + "max_feasible_rate", SA + "max_feasible_rate.<locals>.bisection"]
+SORTMOD = "acnportal.algorithms.sorted_algorithms."
+SORTFNS = [SORTMOD + f for f in ("first_come_first_served", "last_come_first_served", "earliest_deadline_first", "least_laxity_first",
+                                 "largest_remaining_processing_time")]
+GREEDY = [SA + "sorting_algorithm"]
 SIM = "acnportal.acnsim.simulator.Simulator."
-NET = "acnportal.acnsim.network.charging_network.ChargingNetwork."
 AE = "acnportal.acnsim.events.acndata_events."
 EVT = "acnportal.acnsim.events.event."
 EQ = "acnportal.acnsim.events.event_queue.EventQueue."
@@ -27,7 +31,7 @@ BATTERY_FNS = [B + "Battery.__init__", B + "Battery.charge", B + "Battery.reset"
                B + "Linear2StageBattery._charge", B + "Linear2StageBattery._charge_stepwise"]
 SET_PILOT = [S + "BaseEVSE.set_pilot@EVSE", S + "BaseEVSE.set_pilot@DeadbandEVSE", S + "BaseEVSE.set_pilot@FiniteRatesEVSE"]
 
-SHARDS = {SN + "unplug": 6, SN + "post_charging_update": 4, SN + "plugin": 3, SIM + "_update_schedules": 8, SIM + "_store_actual_charging_rates": 4, B + "batt_cap_fn": 8, AE + "_convert_to_ev": 4, SIM + "run": 16, SIM + "_process_event": 4, EQ + "get_current_events": 8, EQ + "add_events": 3, EQ + "__init__": 3, B + "Linear2StageBattery._charge": 6, B + "Linear2StageBattery._charge_stepwise": 2}
+SHARDS = {"acnportal.acnsim.interface.Interface.is_feasible": 8, NET + "is_feasible": 6, NET + "constraint_current": 4, "acnportal.algorithms.utils.infrastructure_constraints_feasible": 4, SA + "sorting_algorithm": 8, SN + "unplug": 6, SN + "post_charging_update": 4, SN + "plugin": 3, SIM + "_update_schedules": 8, SIM + "_store_actual_charging_rates": 4, B + "batt_cap_fn": 8, AE + "_convert_to_ev": 4, SIM + "run": 16, SIM + "_process_event": 4, EQ + "get_current_events": 8, EQ + "add_events": 3, EQ + "__init__": 3, B + "Linear2StageBattery._charge": 6, B + "Linear2StageBattery._charge_stepwise": 2}
 
 EVSE_FNS = [S + x for x in (
     "BaseEVSE.__init__", "EVSE.__init__", "DeadbandEVSE.__init__", "FiniteRatesEVSE.__init__",
@@ -161,20 +165,37 @@ PLAN = {
     ),
     "C06": dict(
         level="other",
+        functions=[NET + "constraint_current", NET + "is_feasible", "acnportal.acnsim.interface.Interface.is_feasible",
+                   "acnportal.algorithms.utils.infrastructure_constraints_feasible", NET + "station_ids"],
+        lemmas=["C06.three_checkers_agree", "C06.linear_relaxation_is_conservative"],
         bounded=[dict(module="rt.netmon", fn="feasibility_monitor", label="three feasibility checkers against the phasor definition near the limits")],
-        text="BOUNDED so far: on seeded networks (mixed-sign / fractional coefficients, phases 30/-90/150/0, varied network tolerances) and schedules "
-             "scaled to (1 +- 1e-7 .. 1e-3) x the binding limit, ChargingNetwork.is_feasible, Interface.is_feasible and "
-             "algorithms.utils.infrastructure_constraints_feasible are each compared with the first-principles definition |sum_j a_ij s_jt e^{i phi_j}| "
-             "<= limit_i + max(abs tol, rel tol x limit_i) for explicit tolerances None / 0 / defaults / 0.5; constraint-free networks accept "
-             "everything and hand out an InfrastructureInfo; the linear relaxation equals sum |a| s and never accepts a non-negative schedule the "
-             "phase-aware check rejects; feasibility queries leave the limits untouched; a rejected add_constraint leaves all checkers usable.",
-        note="no obligation is proved for C06 yet (numpy matrix code); schedules exactly on the boundary are skipped (floating-point rounding decides them)",
-        explanation="bounded run-time contract monitor only (rt.netmon.feasibility_monitor)",
-        technique="run-time contract monitor on the real functions against the phasor definition (bounded stand-in); deductive obligations pending",
+        text="PROVED (all constraint matrices incl. mixed signs, limits, phase angles, tolerances, schedule matrices of any size; no bound), each from its "
+             "current source against ONE specification FEASDEF written from the property - for every constraint i and period t, |sum_j A[i][j] S[j][t] "
+             "e^{i phi_j}| <= limit_i + max(abs tol, rel tol x limit_i): ChargingNetwork.constraint_current returns exactly the matrix of those phasor "
+             "sums (linear mode: sum_j |A[i][j]| S[j][t]), rows in network order, columns = the requested periods in the order given; "
+             "ChargingNetwork.is_feasible returns True iff FEASDEF holds (explicit tolerances or the network's defaults; both directions), and True "
+             "whenever there is no constraint; Interface.is_feasible builds the matrix the mapping denotes (row i = list of the i-th registered station, "
+             "0 if omitted), rejects unequal lengths with InvalidScheduleError exactly then, accepts the empty mapping, and otherwise returns True iff "
+             "FEASDEF holds for that matrix; algorithms.utils.infrastructure_constraints_feasible (both loops, loop invariants) returns True iff FEASDEF "
+             "holds for the rate vector with its tolerance arguments. Lemmas: the three verdicts coincide (same specification); for non-negative "
+             "schedules the phase-aware magnitude is at most the linear sum, so whatever the linear relaxation accepts the phase-aware check accepts. "
+             "BOUNDED: behaviour under IEEE-754 rounding near the limits, constraint-free networks handed to schedulers, 2-D rate matrices on the "
+             "algorithm side, subsets of constraints.",
+        note="numpy operations per A-LIB (matrix product as a finite Sum, elementwise broadcasting, tile, transpose, np.all, np.abs of a complex array = "
+             "cabs, linalg.norm of a 2-vector = cabs, exp(1j x) = cos x + i sin x); cos / sin / deg2rad / cabs uninterpreted; the linear-conservative "
+             "lemma uses the triangle inequality for finite sums and |k e^{i theta}| = |k| (A-MATH); constraint_current is verified for constraints=None "
+             "(the form is_feasible uses); FEAS (the predicate of the search procedures, C07/C08) is DEFINED as this function's verdict under default arguments",
+        explanation="proved: the three checkers and constraint_current against one phasor specification + agreement / conservativeness lemmas (pyvc/z3); "
+                    "bounded: floating-point boundary behaviour and the remaining call forms (rt.netmon.feasibility_monitor)",
+        technique="contract-based deductive verification against a single specification predicate, numpy matrix / complex theory with a Sum operator (pyvc/z3) + run-time contract monitor (bounded)",
+        trusted=["A-LIB numpy: @ as Sum of products, broadcasting M * c along the last axis, .T, tile, maximum, abs, all, stack, linalg.norm(2-vector), "
+                 "astype('complex'), fancy row/column indexing, exp(1j x) = cos x + i sin x",
+                 "A-MATH: cabs >= 0, cabs(x, 0) = |x|, triangle inequality for finite sums, |k e^{i theta}| = |k|",
+                 "definition: FEAS(v, infrastructure) := verdict of infrastructure_constraints_feasible under default arguments"],
     ),
     "C07": dict(
         level="other",
-        functions=SEARCH,
+        functions=SEARCH + GREEDY,
         bounded=[dict(module="rt.algomon", fn="algo_monitor", label="every schedule() call of greedy / round-robin during seeded simulations"),
                  dict(module="rt.drivers", fn="sim_monitor", label="simulation-level corollaries under the sorted algorithms", schedulers=["sorted", "rr"])],
         text="PROVED (all vectors, level lists, brackets; relative to the algorithm-side feasibility predicate FEAS): the two search procedures every "
@@ -191,7 +212,7 @@ PLAN = {
     ),
     "C08": dict(
         level="other",
-        functions=SEARCH,
+        functions=SEARCH + GREEDY + SORTFNS,
         lemmas=["C08.feasible_set_along_one_coordinate_is_an_interval"],
         bounded=[dict(module="rt.algomon", fn="algo_monitor", label="priority allocation of greedy / round-robin / uncontrolled against the specification")],
         text="PROVED (relative to FEAS): discrete_max_feasible_rate returns the LARGEST allowable level that is feasible given the fixed other entries "
